@@ -229,7 +229,9 @@ func VfC04Request() {
 	vf.Assume(k >= 0 && k < len(r.Challenge))
 	vf.Assert(pr.Challenge[k] == r.Challenge[k], "reply-does-not-echo-challenge")
 	hasAuth := len(pr.UniverseAuth) > 0
-	vf.Assert(hasAuth == (w.secret && r.Universe != ""), "universe-proof-presence")
+	// the requester demands the proof whenever IT has a secret (handlePeeringResponse), whether or
+	// not the universe has a name: the responder supplies it whenever a secret is configured
+	vf.Assert(hasAuth == w.secret, "universe-proof-presence")
 	if hasAuth {
 		// H(universe | challenge | secret | requester | responder)
 		ins := m.VfDigestInputs()
